@@ -37,6 +37,29 @@ def visitor_class(r):
     return head[:16]
 
 
+def xtcp_nontrivial(tok, res):
+    k = tok[0]
+    if k in ("uconn", "silent"):
+        return "route=" in res
+    if k == "burst":
+        return res.startswith("tunnel=")
+    if k == "vstop":
+        return res.startswith("closed=") and not res.startswith("closed=0")
+    return False
+
+
+def xtcp_class(r):
+    if "route=" in r:
+        d = dict(p.split("=", 1) for p in r.split(";") if "=" in p)
+        ok = d.get("hits") in ("0", "1") and d.get("up") == d.get("down") == d.get("tag")
+        return (("quiet=" + d["quiet"] + ",") if "quiet" in d else "") + d.get("route", "?") + ("" if ok else ":BAD") + \
+            ("" if d.get("tm") in ("ok", "na") else ":" + d.get("tm", "?"))
+    if r.startswith("tunnel="):
+        d = dict(p.split("=", 1) for p in r.split(";"))
+        return "t%s f%s o%s b%s" % tuple("0" if d[k] == "0" else "+" for k in ("tunnel", "fallback", "other", "bad"))
+    return r[:12]
+
+
 PROP = {
         "level": "proof",
         "gens": [],
@@ -57,11 +80,25 @@ PROP = {
             "Frp.C08.finish_failed_unchanged", "Frp.C08.begin_refused_unchanged", "Frp.C08.begin_atomic",
             "Frp.C08.cqinv_step", "Frp.C08.cqinv_reachable", "Frp.C08.deliveredOkB_iff",
             "Frp.C08.reachable_accept_delivered_ok",
+            # §7 the xtcp visitor of frpc, §8 tunnel stacks, §9 fallback visitor + predicate of the xtcp engine
+            "Frp.C08.xv_request_signed", "Frp.C08.xv_hole_ok_iff", "Frp.C08.xv_hole_ok_entitled", "Frp.C08.xv_served_once",
+            "Frp.C08.xv_never_both", "Frp.C08.xv_closed_reason", "Frp.C08.xv_fallback_never_drops",
+            "Frp.C08.xv_deadline_hands_over", "Frp.C08.xv_hand_timing", "Frp.C08.xv_tunnel_entitled",
+            "Frp.C08.xv_hole_starts_paced", "Frp.C08.xv_keep_budget", "Frp.C08.xv_session_kinds_agree",
+            "Frp.C08.step_hands", "Frp.C08.step_phase", "Frp.C08.step_rstep", "Frp.C08.xt_stacks_are_common",
+            "Frp.C08.xt_mirror_iff", "Frp.C08.xt_tunnel_down_prefix", "Frp.C08.xt_tunnel_down_complete",
+            "Frp.C08.xt_tunnel_up_prefix", "Frp.C08.xt_tunnel_up_complete", "Frp.C08.xt_tunnel_keyed",
+            "Frp.C08.xt_tunnel_keyed_iff", "Frp.C08.xv_fallback_served_entitled", "Frp.C08.xtAdmB_entitled",
+            "Frp.C08.xv_hole_ok_admB", "Frp.C08.xtHoldsOn_sound",
         ],
         "engines": [
             {"name": "visitor", "quick_n": 6000, "thorough_n": 20000, "thorough_seeds": 5,
              "search_n": 4000, "search_seeds": 3,
              "nontrivial": visitor_nontrivial, "result_class": visitor_class},
+            # n = visitor scenarios (one real frpc each); a run of 20 takes ~25 s
+            {"name": "xtcp", "quick_n": 20, "thorough_n": 40, "thorough_seeds": 3,
+             "search_n": 8, "search_seeds": 2,
+             "nontrivial": xtcp_nontrivial, "result_class": xtcp_class},
         ],
         "rule": "visitor engine: (A) the real visitor.Manager and nathole.Controller driven directly, the harness holding "
                 "every listener / sid channel ever returned (accept, drain = negative oracle: every connection that comes out "
@@ -74,13 +111,31 @@ PROP = {
                 "foreign run ids, NatHoleVisitor with pre-check on/off, CloseProxy, disconnect), owners checked for "
                 "ReqWorkConn by a ping barrier, admitted streams echoed both ways under all enc/comp declarations. "
                 "A case is non-trivial when a request is admitted or refused for the key, the user, the run id or a "
-                "closed listener; distinct = distinct (op line, result) pairs",
+                "closed listener; distinct = distinct (op line, result) pairs. "
+                "xtcp engine: one real frps, one real frpc owning xtcp and stcp proxies (every enc/comp declaration, allow lists "
+                "owner-only / named users / *), and one real frpc PER VISITOR SCENARIO (an XTCPVisitor, optionally an STCPVisitor it "
+                "falls back to), all in-process on loopback; NAT discovery against a STUN responder of the harness, or against a "
+                "socket that never answers (no hole can be prepared: deterministic fallback). Scenario classes: tunnel possible "
+                "(quic and kcp, keepTunnelOpen on/off), tunnel possible but the fallback timeout shorter than a hole takes (either "
+                "outcome accepted, exactly one), tunnel impossible (wrong key | user not allowed | STUN dead | no such proxy | proxy "
+                "of another type) with a fallback visitor (own key right/wrong, own allow list) or without, nobody connecting "
+                "(keepTunnelOpenWorker alone, 1 s checks). Every proxy has its own tagged backend: per user connection the harness "
+                "reports who served it, how many backend connections were made on ALL backends together (exactly one, or none), "
+                "whether generated payloads (1 B … 200 KB, several chunkings, both directions) arrived intact, and that a "
+                "fallback did not happen before fallbackTimeoutMs; a result that is a timeout is retried alone once, a wrong "
+                "backend / broken bytes / an unentitled service never",
         "trusted": COMMON_TRUST + [
             "models Frp/Model/Visitor.lean, Frp/Model/VisitorLock.lean (+ Frp/Model/Md5.lean for the driver) written by hand; tied by the visitor engine "
             "(real visitor.Manager.Listen/NewConn/CloseListener, InternalListener.PutConn/Close/Accept, nathole.Controller."
             "ListenClient/CloseClient/HandleVisitor, util.GetAuthKey, and through a real server.Service: RegisterControl, "
             "Control.RegisterProxy/CloseProxy, stcp/sudp/xtcp Run/Close, RegisterVisitorConn, handleNatHoleVisitor)",
             "verif hook pkg/nathole/verif_export.go (VerifSessions: number of stored sessions)",
+            "model Frp/Model/XtcpVisitor.lean (client/visitor/xtcp.go as a transition system; makeNatHole answered by the "
+            "server model) written by hand; tied by the xtcp engine (real client.Service with XTCPVisitor.Run / worker / "
+            "handleConn / openTunnel / getTunnelConn / makeNatHole / processTunnelStartEvents / keepTunnelOpenWorker / Close, "
+            "KCP and QUIC tunnel sessions, visitor.Manager.TransferConn, STCPVisitor; client/proxy/xtcp.go InWorkConn / "
+            "listenByKCP / listenByQUIC; nathole.PreCheck / Prepare / Discover / ExchangeInfo / MakeHole in detect mode 0; "
+            "server/proxy/xtcp.go, Controller.HandleVisitor / HandleClient / HandleReport / analysis)",
             "the harness replaces crypto/rand.Reader by a pass-through reader that stops only calls coming from a vbegin "
             "goroutine (the one place where NewConn can be held up without touching frp)",
         ],
@@ -98,6 +153,19 @@ PROP = {
             "RWMutex (writers wait for readers, in arrival order from one owner goroutine; a reader arriving behind a "
             "waiting writer is not driven); only the direct manager (layer A) is driven with held-up NewConn calls, and "
             "only calls that declare encryption can be held up",
+            "xtcp visitor model: the outcome of NAT discovery (STUN answered), of the traversal (MakeHole found the peer) and of "
+            "session.Init, the moment a session breaks, goroutine scheduling and wall-clock time are INPUTS of the transition "
+            "system (theorems hold for all of them); the server's client table is static during one makeNatHole (changes are "
+            "§3/§6's subject); helper.TransferConn and the IV source are inputs, too (`xferOk`, `ivOk`)",
+            "xtcp engine: on loopback both ends classify as public network, so only detect mode 0 / behaviour 0 of nathole is "
+            "executed; the traversal is assumed to succeed there whenever the server granted it (a run where it does not shows "
+            "as a disagreement); run ids are symbolic in the model (one per user); keys are printable (a key travels as a JSON "
+            "string in NewProxy); visitor and proxy declare the same enc/comp for a tunnel (xt_mirror_iff: otherwise the "
+            "stream is not transparent — such lines are skipped, the generator does not produce them)",
+            "observation (modelled as is, `XtcpVisitor.announcedOnOpen`): over a QUIC tunnel the proxy's frpc learns of a new "
+            "stream only with its first STREAM frame, i.e. after the user wrote something — a backend that speaks first is not "
+            "dialled / heard until then (yamux over KCP announces the stream at once); each keepTunnelOpenWorker check opens "
+            "and closes a tunnel stream, for which the proxy's frpc dials the backend",
             "byte transparency is proved on an abstract layer algebra (which end applies which of enc/comp, with which key) "
             "and sampled on the real AES/snappy wrappers by the echo through the real proxy; bandwidth limiter, plugins "
             "and the client-side visitor/proxy code are not driven here (C01/C19)",
@@ -105,11 +173,13 @@ PROP = {
     }
 
 META = {
-        "engine": "lean+harness(visitor)",
+        "engine": "lean+harness(visitor,xtcp)",
         "design_ref": "DESIGN.md §6 C08, §7 item 5",
         "technique": "Lean 4: decision functions proved sound for all listener tables and messages, invariant over all "
                      "operation histories, witness + repaired model behind a switch; differential correspondence with the "
-                     "real visitor.Manager, nathole.Controller and a real server.Service with adversarial scripted peers",
+                     "real visitor.Manager, nathole.Controller and a real server.Service with adversarial scripted peers; "
+                     "transition system of the xtcp visitor proved for all label histories, tied by real frps + frpc(proxy) + "
+                     "frpc(visitor) triples on loopback with real NAT-hole punching (quic and kcp) and forced fallback",
         "text": "Proof (partial at one named point): for every listener table and every visitor message the stream path "
                 "(stcp, sudp) hands a connection to an owner only if the signature is the proxy's key for the message's "
                 "timestamp and the visitor's user (the login user of the session named by the run id, \"\" for the empty "
@@ -120,9 +190,19 @@ META = {
                 "Listen / CloseListener under the manager's lock: the listener a connection is handed to is the one "
                 "registered under the requested name at that moment and the one it was checked against. The NAT-hole request branch checks the key but not the allow list: witness proved and "
                 "reproduced on the real code (known finding), full theorem proved for the repaired branch "
-                "(hooks/C08-fix-nathole-allowusers.patch, switch Visitor.natFixed).",
-        "note": "Trusted: Lean kernel; hand-written model tied by the visitor engine. Not covered: the client side "
-                "(frpc visitor and proxy), real AES/snappy beyond the sampled echo, races between closure and admission "
+                "(hooks/C08-fix-nathole-allowusers.patch, switch Visitor.natFixed). "
+                "Client side (xtcp): for every history of the xtcp visitor's goroutines (connections arriving, openTunnel's "
+                "ticker, the fallback timeout, its 20 s limit, makeNatHole finishing with any outcome, sessions breaking, "
+                "keep-alive checks, Close) a user connection is handed over at most once — to a stream of the tunnel session "
+                "or to the fallback visitor, never both —, is closed unserved only when no fallback is configured or "
+                "TransferConn / the IV source fails, reaches the fallback visitor not before fallbackTimeoutMs, and a tunnel "
+                "session exists only if the server answered the visitor's pre-check and its request signed with "
+                "GetAuthKey(secretKey, now) positively, i.e. for the proxy's key and an allowed user; the stacks both ends put "
+                "on a tunnel stream (secret key, enc next to the wire) mirror each other iff the declarations agree and are "
+                "then byte-transparent both ways (C01's stack lemmas).",
+        "note": "Trusted: Lean kernel; hand-written models tied by the visitor and xtcp engines. Not covered: NAT traversal "
+                "itself beyond loopback (detect modes 1-4, port prediction), openTunnel's 20 s limit and the 10 s pacing "
+                "running out in real time, real AES/snappy beyond the sampled echo, races between closure and admission "
                 "in the NAT-hole controller and the service layer (C16/C20; the stream manager's own lock is covered here), "
                 "and that run ids are unguessable.",
     }
